@@ -139,6 +139,61 @@ theorem close_request_is_sent :
     (Gen.FactsC15.ctxDoneBodies.filter fun x => x.1 == "PacketUnderlay.RunEventLoop").map
       (fun x => after x.2 "u.Close()" "return nil") = [true] := by decide
 
+/-! ## Loss of the connection: noticed by a reading event loop, not by one parked behind a stalled session
+
+Full-strength statement (FALSE for the current code on the stream transport):
+  `∀ u, allReleased (afterLoss u)` — after the TCP connection is lost every parked Read/Write of every
+  connection of the underlay returns.
+It fails when the event loop is parked in `deliverSegmentToSession` behind a connection whose
+application has stopped reading (its recvQueue and recvChan are full): the loop does not read, the
+loss is not noticed, the sibling connections stay open.  Known finding
+`C15/hang/behind-stalled-session-tcp`; replayed on the real code by corpus/C15/stall-tcp-*.json. -/
+
+/-- Partial: if the loop is reading, or the connection it is delivering to is still being read by its
+    application (or is closed), the loss closes the underlay and releases every connection. -/
+theorem loss_releases_partial (u : USt) (hd : u.underlayDone = false)
+    (h : u.loop = .reading ∨ ∃ i, u.loop = .delivering i ∧ deliverable u i = true) :
+    allReleased (afterLoss u) = true := by
+  have key : ∀ v : USt, v.loop = .reading → v.underlayDone = false → v.netLost = true →
+      allReleased (runLoop 2 v) = true := by
+    intro v hl hdn hn
+    simp [runLoop, loopStep, hl, hdn, hn, allReleased]
+  rcases h with h | ⟨i, hi, hc⟩
+  · have := key { u with netLost := true } h hd rfl
+    unfold afterLoss
+    simp only [runLoop] at this ⊢
+    cases hs : loopStep { u with netLost := true } with
+    | none => simp [loopStep, h, hd] at hs
+    | some v =>
+      rw [hs] at this
+      simp only [] at this ⊢
+      cases hs2 : loopStep v with
+      | none => rw [hs2] at this; simpa using this
+      | some w =>
+        rw [hs2] at this
+        simp only [] at this ⊢
+        have hw : loopStep w = none := by
+          simp only [loopStep, h, hd, Bool.false_eq_true, if_false, if_true, Option.some.injEq] at hs
+          subst hs
+          simp [loopStep, h] at hs2
+        rw [hw]
+        exact this
+  · have hstep : loopStep { u with netLost := true } = some { u with netLost := true, loop := .reading } := by
+      simp only [loopStep, hi]
+      have hc' : deliverable ⟨.delivering i, true, u.underlayDone, u.sessClosed, u.appReads⟩ i = true := hc
+      rw [if_pos hc']
+    unfold afterLoss
+    simp only [runLoop, hstep]
+    exact key _ rfl hd rfl
+
+/-- Counterexample: two connections on one underlay, the application of the first has stopped reading
+    and the loop is parked delivering to it; the connection is lost; nothing moves, the second
+    connection is not released. -/
+theorem loss_unobserved_behind_stalled_session_counterexample :
+    ∃ u : USt, u.underlayDone = false ∧ loopStep { u with netLost := true } = none ∧
+      allReleased (afterLoss u) = false :=
+  ⟨⟨.delivering 0, false, false, [false, false], [false, true]⟩, by decide⟩
+
 /-! ## Deadlines -/
 open Mieru.Deadline
 
@@ -218,6 +273,9 @@ example : acceptHist (hist false
 /-- … and rejects a read still parked 20 s after the local close returned -/
 example : acceptHist (hist false
     [⟨.read, .client, 0, 10, 20500, .blocked, 0⟩, ⟨.close, .client, 0, 400, 402, .ok, 0⟩]) = false := by decide
+/-- behind a stalled connection (TCP) the peer's close is not guaranteed to arrive: accepted -/
+example : acceptHist (hist false
+    [⟨.read, .server, 1, 10, 20500, .blocked, 0⟩, ⟨.muxClose, .client, 0, 400, 1600, .ok, 0⟩] (some .server)) = true := by decide
 /-- … and an EOF nobody caused -/
 example : acceptHist (hist true [⟨.read, .client, 0, 10, 300, .eof, 0⟩]) = false := by decide
 
